@@ -1167,3 +1167,35 @@ tie_h1 = _tie('h1')
 tie_rect = _tie('rect')
 tie_h2 = _tie('h2')
 tie_cyl = _tie('cyl')
+
+
+# --------------------------------------------------------------------------
+# C14 oracle: flux at x = 0, Robin (convective) condition at x = L — *which* roots fsolve returns.
+# The theorems take each mu_n as a root of mu tan(mu) = a (a = alpha2 L / beta2); that the N roots are the
+# first N positive ones, each exactly once, is what makes the series complete (initial data).  For a > 0 the
+# k-th root lies in (k pi, k pi + pi/2).  Added after seeded C14-6 (another starting guess: mode 1 became a
+# copy of mode 2 for a >= 5, PDE and boundary conditions still exact, initial profile off by O(1)).
+# --------------------------------------------------------------------------
+
+def _gen_flux_robin(rng):
+    if rng.random() < 0.08:
+        return dict(a=20.0, L=1.0, N=8)                        # the recorded witness of the baseline defect
+    return dict(a=10 ** rng.uniform(-0.7, 1.15), L=rng.choice([0.5, 1.0, 2.0, 3.0]), N=rng.choice([4, 8, 12, 20]))
+
+
+def _chk_flux_robin(c):
+    a, L, N = c['a'], c['L'], c['N']
+    try:          # rod1d.py: a = alpha2 / (beta2 / L)
+        s = solver(ROD, dict(alpha1=0.0, beta1=1.0, gamma1=0.0, alpha2=a / L, beta2=1.0, gamma2=0.0, L=L, Nsum=N))
+    except Exception:
+        return None
+    mu = [float(k) * L for k in s.kn]
+    bad = [n for n in range(N) if not (n * math.pi < mu[n] < n * math.pi + math.pi / 2)]
+    if bad:
+        return dict(site='Rod1D:flux-robin-roots' + (':strong-convection' if a >= 16.5 else ''),
+                    detail='alpha1=0, alpha2 L/beta2 = %r, Nsum=%d: mode %d has mu = %r, not the root in (%d pi, %d pi + pi/2); mu = %r'
+                           % (a, N, bad[0], mu[bad[0]], bad[0], bad[0], [round(m, 3) for m in mu[:6]]))
+    return None
+
+
+flux_robin_roots = O.make(_gen_flux_robin, _chk_flux_robin, 'c14.flux_robin_roots')
